@@ -1,8 +1,10 @@
 //! Verification harness: runs the real implementation (path dependency on /repo)
 //! and prints canonical observations. One sub-command per engine.
 mod ast;
+mod eqord;
 mod sat;
 mod tables;
+mod tree;
 
 fn main() {
     // panics of the library are caught with catch_unwind and reported as observations
@@ -15,6 +17,7 @@ fn main() {
     match args[1].as_str() {
         "tables" => tables::run(&args[2..]),
         "sat" => sat::run(&args[2..]),
+        "eqord" => eqord::run(&args[2..]),
         other => {
             eprintln!("unknown engine {}", other);
             std::process::exit(2);
